@@ -394,6 +394,35 @@ theorem external_terms_no_sum_rule :
     traceM 1 ((omegaE GRat.I ⟨1/2, 0⟩ (deiG (1/10)) false true "rotAA" [2] .inn).eval GRat.conj env) = ⟨1, 0⟩ := by
   decide +kernel
 
+
+/-! ## `dEig_inv` is the per-k function at EVERY k-point, whatever the size of the grid -/
+
+/-- **`dEigInv_all_k`.**  The array equals the per-k function at every index `ik < nk` — for every `nk`
+    (1, 7, 1023, 1024, 1025, …). -/
+theorem dEigInv_all_k {K : Type} [Field K] (E : ℕ → ℕ → K) (sel : ℕ → ℕ → ℕ → Bool) (nk ik n l : ℕ) (h : ik < nk) :
+    dEigInvAllK E sel nk ik n l = dEigInv (E ik) (sel ik) n l := by
+  unfold dEigInvAllK; rw [if_pos h]
+
+/-- a block-wise fill is the same array iff the blocks cover all k-points: `⌈nk/nb⌉` blocks do … -/
+theorem dEigInv_blocks_ceil {K : Type} [Field K] (E : ℕ → ℕ → K) (sel : ℕ → ℕ → ℕ → Bool) (nb nk ik n l : ℕ)
+    (hnb : 0 < nb) (h : ik < nk) :
+    dEigInvBlocks E sel ((nk + nb - 1) / nb) nb nk ik n l = dEigInvAllK E sel nk ik n l := by
+  unfold dEigInvBlocks dEigInvAllK
+  have : ik < (nk + nb - 1) / nb * nb := by
+    have h1 := Nat.div_add_mod (nk + nb - 1) nb
+    have h2 := Nat.mod_lt (nk + nb - 1) hnb
+    have h3 : nb * ((nk + nb - 1) / nb) = (nk + nb - 1) / nb * nb := Nat.mul_comm _ _
+    omega
+  rw [if_pos ⟨h, this⟩, if_pos h]
+
+/-- … `max(nk // nb, 1)` blocks do NOT: with `nb = 1024` and `nk = 1025` the last k-point is never written, its
+    `dEig_inv` stays 0 although the two bands are 1 apart (the Berry curvature silently vanishes there) -/
+theorem dEigInv_blocks_floor_truncates :
+    let E : ℕ → ℕ → ℚ := fun _ b => b
+    let sel : ℕ → ℕ → ℕ → Bool := fun _ n l => n == l
+    dEigInvBlocks E sel (max (1025 / 1024) 1) 1024 1025 1024 1 0 = 0 ∧ dEigInvAllK E sel 1025 1024 1 0 = 1 := by
+  decide +kernel
+
 /-! ## T4: Fermi level above all bands -/
 
 /-- **T4.**  A Fermi-sea k-sum of the internal Berry curvature with the Fermi level above every band (all blocks of
